@@ -56,7 +56,7 @@ def run(tier, seed):
                           "lenv": {"VERIF_JITTER": "0.002"} if n % 5 == 0 else None})
     ws = c05.walks("MP_MC.tla", "cfg/MP_sim2_c08_safe.cfg", nwalk, 12, seed + 77)
     for n, h in enumerate(ws):
-        tr = mpgen.Translator(rng, 2)
+        tr = mpgen.Translator(rng, 2, safe=True)
         safe.append({"x": "s2w%d" % n, "np": 2, "steps": mpgen.fixture() + tr.steps(h), "lenv": {"PNETCDF_SAFE_MODE": "1"}})
     safe += disagree_scenarios()
     rule = ("random walks (TLC -simulate, depth 12) of the MP model: in every collective put/get each rank independently passes a valid "
